@@ -16,6 +16,9 @@ def files():
     # reserved (builtin) but not a keyword: the client method is `list`; lower-cased keyword of two words: `non_local`
     G.add_method(a, "List", ".acme.lab.v1.Req", ".acme.lab.v1.Resp", http=("get", "/v1/{parent=p/*}/widgets"))
     G.add_method(a, "NonLocal", ".acme.lab.v1.Req", ".acme.lab.v1.Resp", http=("get", "/v1/{name=w/*}:nonLocal"))
+    # request-streaming rpcs: listed under every client kind (the client method exists whatever the transport can carry)
+    G.add_method(a, "UploadWidgets", ".acme.lab.v1.Req", ".acme.lab.v1.Resp", client_streaming=True)
+    G.add_method(a, "ChatWidgets", ".acme.lab.v1.Req", ".acme.lab.v1.Resp", client_streaming=True, server_streaming=True)
     G.add_method(a, "PurgeWidgets", ".acme.lab.v1.Req", ".acme.lab.v1.Resp", http=("post", "/v1/{parent=p/*}:purge"), body="*")
     b = G.add_service(fd, "AuditService")
     G.add_method(b, "Global", ".acme.lab.v1.Req", ".acme.lab.v1.Resp", http=("get", "/v1/{name=g/*}"))
@@ -47,7 +50,7 @@ def check(transport, selective=None, namespace=None):
     with G.materialised(res):
         import importlib
         pkg = importlib.import_module("acme.lab_v1")
-        services = {"WidgetService": ["GetWidget", "Import", "List", "NonLocal", "PurgeWidgets"], "AuditService": ["Global"], "IdleService": []}
+        services = {"WidgetService": ["ChatWidgets", "GetWidget", "Import", "List", "NonLocal", "PurgeWidgets", "UploadWidgets"], "AuditService": ["Global"], "IdleService": []}
         if sorted(meta.get("services", {})) != sorted(services):
             failures.append(dict(label, what="services listed", got=sorted(meta.get("services", {}))))
         for s, rpcs in services.items():
@@ -71,12 +74,37 @@ def check(transport, selective=None, namespace=None):
         mt = re.search(r"METHOD_TO_PARAMS: Dict\[str, Tuple\[str\]\] = (\{.*?\n    \})", script, re.S)
         table = eval(mt.group(1)) if mt else {}
         order = ("force", "parent", "name", "type_", "note")     # required first (declaration order), then the rest
-        keys = ("get_widget", "import", "list", "non_local", "purge_widgets", "global")
+        keys = ("get_widget", "import", "list", "non_local", "purge_widgets", "global", "upload_widgets", "chat_widgets")
         for key in keys:
             if table.get(key) != order:
                 failures.append(dict(label, what=f"fix-up table entry {key!r}", got=table.get(key), want=order))
         if sorted(table) != sorted(keys):
             failures.append(dict(label, what="fix-up table keys", got=sorted(table)))
+    return failures
+
+
+def subpackage_fixup():
+    """The fix-up table has an entry for every rpc of the API, also for the rpcs of a service declared in a sub-package."""
+    from vf import genlab as G
+    T = G.T
+    root = G.new_file("acme/lab/v1/lab.proto", "acme.lab.v1")
+    G.add_message(root, "Req", [G.F("name", 1, T.TYPE_STRING), G.F("force", 2, T.TYPE_BOOL)])
+    G.add_message(root, "Resp", [G.F("x", 1, T.TYPE_STRING)])
+    G.add_method(G.add_service(root, "Lab"), "GetThing", ".acme.lab.v1.Req", ".acme.lab.v1.Resp", http=("get", "/v1/{name=t/*}"))
+    sub = G.new_file("acme/lab/v1/admin/admin.proto", "acme.lab.v1.admin", deps=G.STD_DEPS + ["acme/lab/v1/lab.proto"])
+    adm = G.add_service(sub, "Admin")
+    G.add_method(adm, "GetQuota", ".acme.lab.v1.Req", ".acme.lab.v1.Resp", http=("get", "/v1/{name=q/*}"))
+    G.add_method(adm, "PurgeShelves", ".acme.lab.v1.Req", ".acme.lab.v1.Resp", http=("post", "/v1/{name=s/*}:purge"), body="*")
+    failures = []
+    try:
+        api, res = G.generate([root, sub], "autogen-snippets=false,metadata")
+    except Exception as e:      # noqa
+        return [{"what": "generation failed for an API with a service in a sub-package", "error": repr(e)[:200]}]
+    script = next((f.content for f in res.file if f.name.startswith("scripts/fixup_") and f.name.endswith("_keywords.py")), "")
+    mt = re.search(r"METHOD_TO_PARAMS: Dict\[str, Tuple\[str\]\] = (\{.*?\n    \})", script, re.S)
+    table = eval(mt.group(1)) if mt else {}
+    if sorted(table) != ["get_quota", "get_thing", "purge_shelves"]:
+        failures.append({"what": "fix-up table keys for an API with a service in a sub-package", "got": sorted(table), "want": ["get_quota", "get_thing", "purge_shelves"]})
     return failures
 
 
@@ -95,4 +123,6 @@ def scenarios():
             failures.append({"config": i, "error": p.stderr[-600:]})
         else:
             failures += json.loads(p.stdout.rsplit("@@", 1)[1])
-    return {"cases": 5, "failures": failures}
+    from vf.genlab import run_isolated
+    failures += run_isolated("props.C15_native", "subpackage_fixup")
+    return {"cases": 6, "failures": failures}
